@@ -1,5 +1,6 @@
 (* Lip6 — re-serializing the decoded IPv6 layer gives the same bytes (C06 fixpoint clause) *)
 From GP Require Import Base ListX N6Lib Lip6Model Lip6Proofs Lip6Rt Lip6Rt2 Lip6Rt3 Lip6Idem.
+Ltac Zify.zify_post_hook ::= Z.div_mod_to_equations.
 From Coq Require Import Lia ZifyBool ZifyNat.
 Open Scope Z_scope.
 
@@ -162,4 +163,139 @@ Proof.
   destruct (ip6_fields_proj l2 l3 HF) as (E1 & E2 & E3 & _ & _ & E6 & E7 & E8).
   rewrite (ip6_wire_hbh_fields l2 l3 h2 h3 payload Hh2 Hh3 ltac:(rewrite HS2, HS3; reflexivity) E1 E2 E3 E6 E7 E8 HJ).
   pose proof (ip6_wire_idem l payload true) as HI. rewrite EW in HI. cbn [snd] in HI. rewrite HI. reflexivity.
+Qed.
+
+Lemma ip6_roundtrip_jumbo_exact l payload junk : ip6_okb l = true -> p_hbh l = None -> bytes_ok payload ->
+  65535 < n6_len payload < 4294967296 - 8 ->
+  exists bytes jl, jl = be_bytes 4 (n6_len payload + 8) /\
+    bytes = ip6_hdr_bytes (mkIp6 (p_version l) (p_tclass l) (p_flow l) 0 0 (p_hop l) (p_src l) (p_dst l) None [] [])
+            ++ [p_next l; 0; JUMBO; 4] ++ jl ++ payload /\
+    ip6_roundtrip l payload junk =
+      (Ok bytes, (mkIp6 (p_version l) (p_tclass l) (p_flow l) 0 0 (p_hop l) (p_src l) (p_dst l)
+                        (Some (mkExt (p_next l) 0 8 [mkTlv JUMBO 4 6 jl 0 0] ([p_next l; 0; JUMBO; 4] ++ jl) payload))
+                        (firstn 40 bytes) ([p_next l; 0; JUMBO; 4] ++ jl ++ payload), Ok tt, false)).
+Proof.
+  intros Hok Hh Hp Hlen. pose proof (ip6_okb_spec l Hok) as (Hv & Htc & Hfl & Hnh & Hhop & Hsb & Hsl & Hdb & Hdl & Hnn).
+  rewrite Hh in Hnn.
+  assert (Hw : ip6_wf l) by (unfold ip6_wf; rewrite Hh; exact I).
+  unfold ip6_roundtrip. rewrite ip6_serialize_closed by exact Hw. unfold ip6_wire.
+  replace (65535 <? n6_len payload) with true by lia. cbn [andb negb].
+  unfold add_jumbo. rewrite Hh. cbn [replace_first_jumbo e_opts e_next e_hlen e_alen e_contents e_payload app p_hbh].
+  (* the hop-by-hop header FixLengths creates: 8 octets *)
+  assert (EW : ext_wire false (mkExt (p_next l) 0 0 [set_jumbo 0 (mkTlv 0 0 0 [] 0 0)] [] []) payload true =
+               (Ok ([u8 (p_next l); 0; JUMBO; 4; 0; 0; 0; 0] ++ payload),
+                mkExt (p_next l) 0 0 [set_jumbo 0 (mkTlv 0 0 0 [] 0 0)] [] [])) by reflexivity.
+  rewrite EW. replace (u8 (p_next l)) with (p_next l) by (unfold u8; lia). cbn [app].
+  set (bytes := p_next l :: 0 :: JUMBO :: 4 :: 0 :: 0 :: 0 :: 0 :: payload).
+  assert (HLb : n6_len bytes = n6_len payload + 8) by (subst bytes; rewrite !n6_len_cons; lia).
+  remember (be_bytes 4 (n6_len payload + 8)) as jl eqn:Ejl.
+  assert (Ljl : length jl = 4%nat) by (subst; apply be_bytes_length).
+  assert (Vjl : be_val jl = n6_len payload + 8) by (subst; rewrite be_val_be_bytes; change (256 ^ Z.of_nat 4) with 4294967296; lia).
+  assert (Bjl : bytes_ok jl) by (subst; apply be_bytes_ok).
+  assert (ESJ : set_jumbo_len bytes = Ok (p_next l :: 0 :: JUMBO :: 4 :: jl ++ payload)).
+  { unfold set_jumbo_len. replace (n6_len bytes <? 8) with false by lia.
+    rewrite (n6_idx_eq bytes 1) by lia. change (nthZ bytes (Z.to_nat 1)) with 0. change ((0 + 1) * 8) with 8.
+    replace (n6_len bytes <? 8) with false by lia. change (Z.to_nat 8) with 8%nat. cbn [jumbo_loop]. change (2 <? 8) with true. cbv iota.
+    rewrite (n6_idx_eq bytes 2), (n6_idx_eq bytes (2 + 1)) by lia.
+    change (nthZ bytes (Z.to_nat 2)) with JUMBO. change (nthZ bytes (Z.to_nat (2 + 1))) with 4.
+    change (JUMBO =? 0) with false. change (JUMBO =? JUMBO) with true. change (4 =? 4) with true. cbv iota.
+    replace (n6_len bytes <? 2 + 6) with false by lia. f_equal.
+    replace (u32 (n6_len bytes)) with (n6_len payload + 8) by (unfold u32; lia). rewrite <- Ejl.
+    destruct jl as [|j0 [|j1 [|j2 [|j3 [|]]]]]; try discriminate Ljl.
+    change (Z.to_nat (2 + 2)) with 4%nat. unfold n6_put, bytes. cbn [firstn skipn length Nat.sub Nat.add app]. rewrite firstn_nil. reflexivity. }
+  rewrite ESJ. unfold set_len_next.
+  cbn [p_version p_tclass p_flow p_length p_next p_hop p_src p_dst p_hbh p_contents p_payload snd e_next e_hlen e_alen e_opts e_contents e_payload
+       replace_first_jumbo set_jumbo t_type].
+  change (JUMBO =? JUMBO) with true. cbv iota. unfold set_jumbo.
+  replace (u32 (n6_len bytes)) with (n6_len payload + 8) by (unfold u32; lia). rewrite <- Ejl.
+  replace (negb (n6_len (p_src l) =? 16)) with false by lia. replace (negb (n6_len (p_dst l) =? 16)) with false by lia.
+  set (hq := mkExt (p_next l) 0 0 [mkTlv JUMBO 4 6 jl 4 2] [] []).
+  set (l3 := mkIp6 (p_version l) (p_tclass l) (p_flow l) 0 0 (p_hop l) (p_src l) (p_dst l) (Some hq) (p_contents l) (p_payload l)).
+  set (bytes' := p_next l :: 0 :: JUMBO :: 4 :: jl ++ payload).
+  assert (H3 : ip6_hdr_ok l3) by (unfold ip6_hdr_ok; cbn; repeat split; lia).
+  rewrite (ip6_decode_wire ip6_fresh l3 bytes' H3). cbn [l3 p_version p_tclass p_flow p_length p_next p_hop p_src p_dst].
+  unfold ip6_body. cbn [p_next p_payload p_length Z.eqb].
+  (* the hop-by-hop header decoded *)
+  destruct jl as [|j0 [|j1 [|j2 [|j3 [|]]]]]; try discriminate Ljl.
+  assert (Bb : bytes_ok bytes').
+  { subst bytes'. repeat (constructor; [unfold byte_ok, JUMBO; lia|]). inversion Bjl as [|? ? B0 T0]; subst. inversion T0 as [|? ? B1 T1]; subst.
+    inversion T1 as [|? ? B2 T2]; subst. inversion T2 as [|? ? B3 T3]; subst. repeat (constructor; [assumption|]). exact Hp. }
+  assert (HLb' : n6_len bytes' = n6_len payload + 8) by (subst bytes'; cbn [app]; rewrite !n6_len_cons; lia).
+  assert (HD : ext_decode_into ext_fresh bytes' =
+               (mkExt (p_next l) 0 8 [mkTlv JUMBO 4 6 [j0; j1; j2; j3] 0 0] [p_next l; 0; JUMBO; 4; j0; j1; j2; j3] payload, Ok tt, false)).
+  { unfold ext_decode_into. rewrite ext_decode_eq by exact Bb. replace (n6_len bytes' <? 2) with false by lia. cbv zeta.
+    change (nthZ bytes' 0) with (p_next l). change (nthZ bytes' 1) with 0. change (0 * 8 + 8) with 8.
+    replace (n6_len bytes' <? 8) with false by lia.
+    change (length bytes') with (S (S (S (S (S (S (S (S (length payload))))))))).
+    cbn [ext_loop]. change (2 <? 8) with true. cbv iota. rewrite (n6_from_eq bytes' 2) by lia.
+    change (skipn (Z.to_nat 2) bytes') with (JUMBO :: 4 :: j0 :: j1 :: j2 :: j3 :: payload).
+    assert (TD : tlv_decode (JUMBO :: 4 :: j0 :: j1 :: j2 :: j3 :: payload) = (Ok (mkTlv JUMBO 4 6 [j0; j1; j2; j3] 0 0), false)).
+    { unfold tlv_decode. rewrite !n6_len_cons. pose proof (n6_len_nonneg payload).
+      replace (1 + (1 + (1 + (1 + (1 + (1 + n6_len payload))))) <? 1) with false by lia.
+      rewrite n6_idx_eq by (rewrite !n6_len_cons; lia). change (nthZ _ (Z.to_nat 0)) with JUMBO. change (JUMBO =? 0) with false. cbv iota.
+      replace (1 + (1 + (1 + (1 + (1 + (1 + n6_len payload))))) <? 2) with false by lia.
+      rewrite n6_idx_eq by (rewrite !n6_len_cons; lia). change (nthZ _ (Z.to_nat 1)) with 4.
+      replace (1 + (1 + (1 + (1 + (1 + (1 + n6_len payload))))) <? 4 + 2) with false by lia.
+      rewrite n6_slice_eq by (rewrite ?n6_len_cons; lia). reflexivity. }
+    rewrite TD. cbn [t_alen]. change (8 <? 2 + 6) with false. cbv iota. change (2 + 6 <? 8) with false. cbv iota. cbn [app].
+    reflexivity. }
+  rewrite HD. cbv zeta. unfold get_jumbo. cbn [e_opts find t_type t_data]. change (JUMBO =? JUMBO) with true. cbv iota.
+  cbn [t_data]. change (n6_len [j0; j1; j2; j3] =? 4) with true. cbn [negb]. rewrite Vjl.
+  replace (n6_len payload + 8 <=? 65535) with false by lia. cbn [andb Z.eqb].
+  rewrite HLb'. replace (n6_len payload + 8 <? n6_len payload + 8) with false by lia.
+  rewrite (n6_slice_eq bytes' 0 (n6_len payload + 8)) by lia. change (Z.to_nat 0) with 0%nat.
+  replace (Z.to_nat (n6_len payload + 8)) with (length bytes') by (clear - HLb'; unfold n6_len in *; lia). rewrite slice_0_all.
+  cbn [e_alen]. rewrite (n6_from_eq bytes' 8) by lia. change (skipn (Z.to_nat 8) bytes') with payload.
+  exists (ip6_hdr_bytes l3 ++ bytes'), [j0; j1; j2; j3]. split; [reflexivity|]. split; [reflexivity|].
+  destruct (ip6_head_wire l3 bytes' H3) as [_ HL40].
+  assert (HF40 : firstn 40 (ip6_hdr_bytes l3 ++ bytes') = ip6_hdr_bytes l3).
+  { replace 40%nat with (length (ip6_hdr_bytes l3)) by (unfold n6_len in HL40; lia). rewrite firstn_app, Nat.sub_diag, firstn_all. cbn [firstn]. apply app_nil_r. }
+  rewrite HF40. reflexivity.
+Qed.
+
+Lemma set_jumbo_len_8 nx payload : 65535 < n6_len payload < 4294967296 - 8 ->
+  set_jumbo_len (nx :: 0 :: JUMBO :: 4 :: 0 :: 0 :: 0 :: 0 :: payload) =
+    Ok (nx :: 0 :: JUMBO :: 4 :: be_bytes 4 (n6_len payload + 8) ++ payload).
+Proof.
+  intros Hlen. set (bytes := nx :: 0 :: JUMBO :: 4 :: 0 :: 0 :: 0 :: 0 :: payload).
+  assert (HLb : n6_len bytes = n6_len payload + 8) by (subst bytes; rewrite !n6_len_cons; lia).
+  remember (be_bytes 4 (n6_len payload + 8)) as jl eqn:Ejl. assert (Ljl : length jl = 4%nat) by (subst; apply be_bytes_length).
+  unfold set_jumbo_len. replace (n6_len bytes <? 8) with false by lia.
+  rewrite (n6_idx_eq bytes 1) by lia. change (nthZ bytes (Z.to_nat 1)) with 0. change ((0 + 1) * 8) with 8.
+  replace (n6_len bytes <? 8) with false by lia. change (Z.to_nat 8) with 8%nat. cbn [jumbo_loop]. change (2 <? 8) with true. cbv iota.
+  rewrite (n6_idx_eq bytes 2), (n6_idx_eq bytes (2 + 1)) by lia.
+  change (nthZ bytes (Z.to_nat 2)) with JUMBO. change (nthZ bytes (Z.to_nat (2 + 1))) with 4.
+  change (JUMBO =? 0) with false. change (JUMBO =? JUMBO) with true. change (4 =? 4) with true. cbv iota.
+  replace (n6_len bytes <? 2 + 6) with false by lia. f_equal.
+  replace (u32 (n6_len bytes)) with (n6_len payload + 8) by (unfold u32; lia). rewrite <- Ejl.
+  destruct jl as [|j0 [|j1 [|j2 [|j3 [|]]]]]; try discriminate Ljl.
+  change (Z.to_nat (2 + 2)) with 4%nat. unfold n6_put, bytes. cbn [firstn skipn length Nat.sub Nat.add app]. rewrite firstn_nil. reflexivity.
+Qed.
+
+Lemma ip6_fixpoint_jumbo l payload junk junk' : ip6_okb l = true -> p_hbh l = None -> bytes_ok payload ->
+  65535 < n6_len payload < 4294967296 - 8 ->
+  match ip6_roundtrip l payload junk with
+  | (Ok bytes, (l2, _, _)) => fst (ip6_serialize l2 payload true true junk') = Ok bytes
+  | _ => False
+  end.
+Proof.
+  intros Hok Hh Hp Hlen. destruct (ip6_roundtrip_jumbo_exact l payload junk Hok Hh Hp Hlen) as (bytes & jl & Hjl & Hb & HR).
+  rewrite HR. pose proof (ip6_okb_spec l Hok) as (Hv & Htc & Hfl & Hnh & Hhop & Hsb & Hsl & Hdb & Hdl & _).
+  set (L2 := mkIp6 _ _ _ 0 0 _ _ _ (Some _) _ _).
+  assert (Hw2 : ip6_wf L2).
+  { unfold ip6_wf, L2, ext_wf. cbn [p_hbh e_opts]. constructor; [|constructor]. unfold tlv_wf. cbn [t_ax t_ay t_data t_olen].
+    repeat split; try lia. rewrite Hjl. apply be_bytes_ok. }
+  rewrite ip6_serialize_closed by exact Hw2. rewrite ip6_wire_finish. cbv zeta.
+  replace (65535 <? n6_len payload) with true by lia. cbn [andb].
+  unfold add_jumbo, L2. cbn [p_hbh e_opts replace_first_jumbo t_type e_next e_hlen e_alen e_contents e_payload
+                             p_version p_tclass p_flow p_length p_next p_hop p_src p_dst p_contents p_payload].
+  change (JUMBO =? JUMBO) with true. cbv iota. cbn [p_hbh].
+  set (C := [p_next l; 0; JUMBO; 4] ++ jl). set (o := mkTlv JUMBO 4 6 jl 0 0).
+  assert (EW : ext_wire false (mkExt (p_next l) 0 8 [set_jumbo 0 o] C payload) payload true =
+               (Ok ([u8 (p_next l); 0; JUMBO; 4; 0; 0; 0; 0] ++ payload), mkExt (p_next l) 0 8 [set_jumbo 0 o] C payload)) by reflexivity.
+  rewrite EW. replace (u8 (p_next l)) with (p_next l) by (unfold u8; lia). cbn [app].
+  rewrite (set_jumbo_len_8 (p_next l) payload Hlen). rewrite <- Hjl.
+  unfold finish. cbn [negb andb]. cbv zeta. simp_l.
+  replace (negb (n6_len (p_src l) =? 16)) with false by lia. replace (negb (n6_len (p_dst l) =? 16)) with false by lia.
+  cbn [fst]. rewrite Hb. f_equal.
 Qed.
